@@ -31,6 +31,15 @@ OPS = [(r"(?<=[\w\)\]]) - (?=[\w\(])", " + "), (r"(?<=[\w\)\]]) \* (?=[\w\(])", 
        (r"(?<=[\w\)\]]) > (?=[\w\(])", " >= "), (r"(?<=[\w\)\]]) \+ (?=[\w\(])", " - "), (r"(?<=[\w\)\]]) / (?=[\w\(])", " * "),
        (r"(?<=[\w\)\]])-(?=[\w\(])", "+"), (r"(?<=[\w\)\]])\*(?=[\w\(])", "/")]
 
+GR4J_SHIFT9 = '\t\tfor i := 1; i < n1; i++ {\n\t\t\tq9State[i-1] = q9State[i]\n\t\t}\n\t\tq9State[n1-1] = 0.0\n'
+GR4J_SHIFT1 = '\t\tfor i := 1; i < n2; i++ {\n\t\t\tq1State[i-1] = q1State[i]\n\t\t}\n\t\tq1State[n2-1] = 0.0\n'
+GR4J_ADVANCE = ('func gr4j(', 'func gr4jAdvance(state []float64, n int) {\n\tfor i := 1; i < n; i++ {\n\t\tstate[i-1] = state[i]\n\t}\n\tstate[n-1] = 0.0\n}\n\nfunc gr4j(')
+CLIMATE_LOOP = ('\tfor i := 0; i < 40; i++ { // max 40 attempts to resolve\n', '\tfor remaining := 40; remaining > 0; remaining-- {\n',
+                '\t\tif math.Abs(dx) < acc {\n\t\t\tbreak // convergence found\n\t\t}\n', '\t\tif math.Abs(dx) < acc {\n\t\t\treturn rtb\n\t\t}\n')
+DATES_SETS = '\t\tdayOfYear.Set(idx, float64(_dayOfYear(d, m, y)))\n\t\tdate.Set(idx, float64(d))\n\t\tmonth.Set(idx, float64(m))\n\t\tyear.Set(idx, float64(y))\n'
+WRITE_DATE = ('func dateGenerator(', 'func writeDate(idx []int, d, m, y int, date, month, year, dayOfYear data.ND1Float64) {\n\tdoy := _dayOfYear(d, m, y)\n'
+              '\tdayOfYear.Set(idx, float64(doy))\n\tdate.Set(idx, float64(d))\n\tmonth.Set(idx, float64(m))\n\tyear.Set(idx, float64(y))\n}\n\nfunc dateGenerator(')
+
 # (id, file, old, new): behaviour-preserving rewrites
 HARMLESS = [
  ('H01 muskingum hoisted temporary', 'models/routing/muskingum.go', 'denom := (2*k*(1-x) + deltaT)', 'k1x2 := 2*k*(1-x)\n\tdenom := (k1x2 + deltaT)'),
@@ -52,6 +61,19 @@ HARMLESS = [
   '\t\tif lateralLoads != nil {\n\t\t\tlateralLoad = lateralLoads.Get(idx)', '\t\tif hasLateral {\n\t\t\tlateralLoad = lateralLoads.Get(idx)'),
  ('H09 bank erosion: helper extracted', 'models/generation/bank_erosion.go',
   'BankErosion_TperDay := (meanAnnual * LinkDischargeFactor) / rough.DAYS_PER_YEAR', 'BankErosion_TperDay := tonnesPerDay(meanAnnual, LinkDischargeFactor)'),
+ # work package R3: helpers that write into a slice parameter, copy(), range with an index, variables assigned before they are read,
+ # count-down loops / return in a bounded loop, procedures that write series, re-indexed loops
+ ('H10 gr4j: shift loop moved into a helper that writes its slice parameter', 'models/rr/gr4j.go', GR4J_SHIFT9, '\t\tgr4jAdvance(q9State, n1)\n'),
+ ('H11 gr4j: shift loop written with copy()', 'models/rr/gr4j.go', GR4J_SHIFT1, '\t\tcopy(q1State[:n2-1], q1State[1:n2])\n\t\tq1State[n2-1] = 0.0\n'),
+ ('H12 gr4j: convolution loop as a range loop with index and value', 'models/rr/gr4j.go',
+  '\t\tfor i := 0; i < n1; i++ {\n\t\t\tq9State[i] = q9State[i] + (Pr * 0.9 * UH1[i])', '\t\tfor i, u := range UH1 {\n\t\t\tq9State[i] = q9State[i] + (Pr * 0.9 * u)'),
+ ('H13 gr4j: a function-level accumulator declared at its first assignment in the loop instead', 'models/rr/gr4j.go',
+  '\tvar Perc float64\n', ''),
+ ('H14 climate: bisection counts down and returns from the loop', 'models/climate/climate_variables.go', CLIMATE_LOOP[0], CLIMATE_LOOP[1]),
+ ('H15 dates: the four Set calls moved into a procedure', 'models/functions/dates.go', DATES_SETS, '\t\twriteDate(idx, d, m, y, date, month, year, dayOfYear)\n'),
+ ('H16 lag: delayed-copy loop over the source index', 'models/routing/lag.go',
+  '\tfor i := lagSteps; i < outflow.Len1(); i++ {\n\t\tidx[0] = i\n\t\tidxInflow[0] = i - lagSteps\n',
+  '\tfor src := 0; src+lagSteps < outflow.Len1(); src++ {\n\t\tidx[0] = src + lagSteps\n\t\tidxInflow[0] = src\n'),
 ]
 
 # hand-written semantic mutants aimed at the normalisations of the translator (constant Booleans, values computed before the loop,
@@ -65,10 +87,29 @@ MUTANTS = [
  ('X06 surm: field capacity from the wrong parameter (before the loop)', 'models/rr/surm.go', 'fieldCapacity := fcFrac * smax', 'fieldCapacity := fcFrac * sq'),
  ('X07 fine sediment: maximum storage without the bulk density (before the loop)', 'models/routing/instream_fine_sediment.go', '* linkArea * sedBulkDensity *', '* linkArea *'),
  ('X08 climate: barometric pressure at twice the elevation (before the loop)', 'models/climate/climate_variables.go', 'pa := barometricPressure(elevation)', 'pa := barometricPressure(2 * elevation)'),
+ # aimed at the normalisations of work package R3
+ ('X09 gr4j: Ps is no longer reset every day (it now carries a value between iterations)', 'models/rr/gr4j.go', '\t\tPs = 0.0\n\t\tEs = 0.0\n', '\t\tEs = 0.0\n'),
+ ('X10 gr4j: the shift helper is called with the length of the other buffer', 'models/rr/gr4j.go', GR4J_SHIFT9, '\t\tgr4jAdvance(q9State, n2)\n'),
+ ('X11 gr4j: copy() from the wrong offset', 'models/rr/gr4j.go', GR4J_SHIFT1, '\t\tcopy(q1State[:n2-1], q1State[0:n2])\n\t\tq1State[n2-1] = 0.0\n'),
+ ('X12 gr4j: range loop over the ordinates of the other hydrograph', 'models/rr/gr4j.go',
+  '\t\tfor i := 0; i < n1; i++ {\n\t\t\tq9State[i] = q9State[i] + (Pr * 0.9 * UH1[i])', '\t\tfor i, u := range UH2 {\n\t\t\tq9State[i] = q9State[i] + (Pr * 0.9 * u)'),
+ ('X13 climate: count-down bisection with 39 passes', 'models/climate/climate_variables.go', CLIMATE_LOOP[0], '\tfor remaining := 40; remaining > 1; remaining-- {\n'),
+ ('X14 climate: return in the loop returns the mid point', 'models/climate/climate_variables.go', CLIMATE_LOOP[2], '\t\tif math.Abs(dx) < acc {\n\t\t\treturn xmid\n\t\t}\n'),
+ ('X15 dates: the procedure writes the month into the date series', 'models/functions/dates.go', DATES_SETS, '\t\twriteDate(idx, m, d, y, date, month, year, dayOfYear)\n'),
+ ('X16 lag: re-indexed loop runs one step too far', 'models/routing/lag.go',
+  '\tfor i := lagSteps; i < outflow.Len1(); i++ {\n\t\tidx[0] = i\n\t\tidxInflow[0] = i - lagSteps\n',
+  '\tfor src := 0; src+lagSteps <= outflow.Len1(); src++ {\n\t\tidx[0] = src + lagSteps\n\t\tidxInflow[0] = src\n'),
+ ('X17 lag: re-indexed loop reads one element later', 'models/routing/lag.go',
+  '\tfor i := lagSteps; i < outflow.Len1(); i++ {\n\t\tidx[0] = i\n\t\tidxInflow[0] = i - lagSteps\n',
+  '\tfor src := 0; src+lagSteps < outflow.Len1(); src++ {\n\t\tidx[0] = src + lagSteps\n\t\tidxInflow[0] = src + 1\n'),
 ]
 
 # extra text that a HARMLESS entry needs elsewhere in its file: (id prefix) -> (old, new)
 HARMLESS_EXTRA = {
+ 'H10': GR4J_ADVANCE, 'X10': GR4J_ADVANCE,
+ 'H13': ('\t\tPerc = 0.0\n', '\t\tPerc := 0.0\n'),
+ 'H14': (CLIMATE_LOOP[2], CLIMATE_LOOP[3]),
+ 'H15': WRITE_DATE, 'X15': WRITE_DATE,
  'H08': ('\tnDays := inflowLoads.Len1()\n', '\tnDays := inflowLoads.Len1()\n\thasLateral := lateralLoads != nil\n'),
  'H09': ('func bankErosion(', 'func tonnesPerDay(meanAnnual, factor float64) float64 {\n\treturn (meanAnnual * factor) / rough.DAYS_PER_YEAR\n}\n\nfunc bankErosion('),
 }
@@ -228,7 +269,14 @@ def main(argv):
             if orig.count(old) != 1:
                 print(mid, "SKIPPED: the source text of this entry is no longer there")
                 continue
-            run_one(mid, "mut", path, orig.replace(old, new), orig, True)
+            mod = orig.replace(old, new)
+            ex = HARMLESS_EXTRA.get(mid.split(" ")[0])
+            if ex:
+                if mod.count(ex[0]) != 1:
+                    print(mid, "SKIPPED: the source text of this entry is no longer there")
+                    continue
+                mod = mod.replace(ex[0], ex[1])
+            run_one(mid, "mut", path, mod, orig, True)
         for (hid, f, old, new) in HARMLESS:
             if sel and not any(hid.startswith(x) for x in sel):
                 continue
